@@ -19,13 +19,43 @@ import (
 )
 
 // PolPool is SlotPool plus a cluster-scoped kind.
-var PolPool = append(append([]Slot{}, SlotPool...), Slot{"ClusterRole", "crole"})
+var PolPool = append(append([]Slot{}, SlotPool...), Slot{"ClusterRole", "crole"}, Slot{"HorizontalPodAutoscaler", "hpa"})
+
+// AltAPIVersions: kinds the simulator serves in two API versions of one group (one stored object).
+// Chart versions of a PolFamily move such resources between the two.
+var AltAPIVersions = map[string][]string{
+	"Widget":                  {"example.com/v1", "example.com/v2"},
+	"HorizontalPodAutoscaler": {"autoscaling/v2", "autoscaling/v1"},
+}
+
+// WithAPIVersion rewrites the apiVersion line of a rendered resource.
+func WithAPIVersion(y, apiVersion string) string {
+	if apiVersion == "" {
+		return y
+	}
+	i := strings.Index(y, "\n")
+	if i < 0 || !strings.HasPrefix(y, "apiVersion: ") {
+		return y
+	}
+	return "apiVersion: " + apiVersion + y[i:]
+}
 
 // PolYAML renders one resource (adds the kinds ResourceYAML does not know).
 func PolYAML(kind, nameExpr, content, valExpr string, ann map[string]string) string {
 	if kind == "ClusterRole" {
 		y := ResourceYAML("Role", nameExpr, content, valExpr, ann)
 		return strings.Replace(y, "kind: Role\n", "kind: ClusterRole\n", 1)
+	}
+	if kind == "HorizontalPodAutoscaler" {
+		// only fields that autoscaling/v1 and autoscaling/v2 both accept
+		y := ResourceYAML("ServiceAccount", nameExpr, content, valExpr, ann)
+		y = strings.Replace(y, "apiVersion: v1\nkind: ServiceAccount\n", "apiVersion: autoscaling/v2\nkind: HorizontalPodAutoscaler\n", 1)
+		y = strings.Replace(y, "automountServiceAccountToken: false\n", "", 1)
+		max := 3 + len(content)%3
+		if len(content) > 0 {
+			max = 3 + int(content[len(content)-1])%4
+		}
+		return y + fmt.Sprintf("spec:\n  scaleTargetRef:\n    apiVersion: apps/v1\n    kind: Deployment\n    name: tgt-%s\n  minReplicas: 1\n  maxReplicas: %d\n", content, max)
 	}
 	y := ResourceYAML(kind, nameExpr, content, valExpr, ann)
 	if kind == "StatefulSet" {
@@ -41,6 +71,7 @@ type PolVersion struct {
 	Slots   []int
 	Content map[int]string
 	Policy  map[int]string // slot -> value of helm.sh/resource-policy ("" = no annotation)
+	APIVer  map[int]string // slot -> apiVersion override (kinds of AltAPIVersions only)
 	Hooks   []HookSpec
 	DefK    string
 }
@@ -70,7 +101,7 @@ func NewPolFamily(rng *rand.Rand, versions, maxSlots int, hooks bool) PolFamily 
 		}
 	}
 	for v := 0; v < versions; v++ {
-		vs := PolVersion{Content: map[int]string{}, Policy: map[int]string{}, DefK: fmt.Sprintf("d%d", rng.Intn(3))}
+		vs := PolVersion{Content: map[int]string{}, Policy: map[int]string{}, APIVer: map[int]string{}, DefK: fmt.Sprintf("d%d", rng.Intn(3))}
 		for _, s := range pool {
 			if rng.Intn(100) < 60 {
 				vs.Slots = append(vs.Slots, s)
@@ -88,6 +119,9 @@ func NewPolFamily(rng *rand.Rand, versions, maxSlots int, hooks bool) PolFamily 
 			}
 			if p != "" {
 				vs.Policy[s] = p
+			}
+			if alts := AltAPIVersions[PolPool[s].Kind]; len(alts) > 0 {
+				vs.APIVer[s] = alts[rng.Intn(len(alts))]
 			}
 		}
 		if hooks {
@@ -127,7 +161,7 @@ func (f PolFamily) Files(v int) Files {
 		if p := vs.Policy[s]; p != "" {
 			ann = map[string]string{ref.PolicyAnno: p}
 		}
-		out["templates/"+sl.Suffix+".yaml"] = PolYAML(sl.Kind, "{{ .Release.Name }}-"+sl.Suffix, vs.Content[s], "{{ .Values.k | quote }}", ann)
+		out["templates/"+sl.Suffix+".yaml"] = WithAPIVersion(PolYAML(sl.Kind, "{{ .Release.Name }}-"+sl.Suffix, vs.Content[s], "{{ .Values.k | quote }}", ann), vs.APIVer[s])
 	}
 	for _, h := range vs.Hooks {
 		nameExpr := "{{ .Release.Name }}-" + h.Name
@@ -150,6 +184,9 @@ func (f PolFamily) Describe(v int) string {
 	var p []string
 	for _, s := range vs.Slots {
 		x := PolPool[s].Suffix + "=" + vs.Content[s]
+		if av := vs.APIVer[s]; av != "" {
+			x += "@" + av[strings.LastIndex(av, "/")+1:]
+		}
 		if pol := vs.Policy[s]; pol != "" {
 			x += "(" + pol + ")"
 		}
@@ -188,31 +225,33 @@ type edit struct {
 }
 
 var fieldEdits = map[string][]edit{
-	"ConfigMap":             {{[]any{"data", "ver"}, "oob"}, {[]any{"data", "k"}, "oob"}, {[]any{"metadata", "labels", "app"}, "oob"}},
-	"Secret":                {{[]any{"stringData", "ver"}, "oob"}, {[]any{"type"}, "oob/type"}, {[]any{"metadata", "labels", "app"}, "oob"}},
-	"Service":               {{[]any{"spec", "ports", 0, "targetPort"}, float64(9999)}, {[]any{"spec", "selector", "app"}, "oob"}, {[]any{"spec", "ports", 1, "name"}, "oob"}},
-	"ServiceAccount":        {{[]any{"automountServiceAccountToken"}, true}, {[]any{"metadata", "labels", "app"}, "oob"}},
-	"Deployment":            {{[]any{"spec", "replicas"}, float64(7)}, {[]any{"spec", "template", "spec", "containers", 0, "image"}, "oob:1"}, {[]any{"spec", "template", "spec", "containers", 0, "env", 0, "value"}, "oob"}, {[]any{"spec", "template", "metadata", "labels", "app"}, "oob"}},
-	"StatefulSet":           {{[]any{"spec", "replicas"}, float64(5)}, {[]any{"spec", "template", "spec", "containers", 0, "image"}, "oob:1"}, {[]any{"spec", "serviceName"}, "oob"}},
-	"Job":                   {{[]any{"spec", "backoffLimit"}, float64(9)}, {[]any{"spec", "template", "spec", "containers", 0, "image"}, "oob:1"}},
-	"PersistentVolumeClaim": {{[]any{"spec", "resources", "requests", "storage"}, "9Gi"}, {[]any{"spec", "accessModes"}, []any{"ReadOnlyMany", "ReadWriteOnce"}}},
-	"Role":                  {{[]any{"rules", 0, "verbs"}, []any{"get"}}, {[]any{"rules", 0, "resources"}, []any{"configmaps", "secrets"}}},
-	"ClusterRole":           {{[]any{"rules", 0, "verbs"}, []any{"get", "list", "delete"}}, {[]any{"metadata", "labels", "app"}, "oob"}},
-	"NetworkPolicy":         {{[]any{"spec", "podSelector", "matchLabels", "app"}, "oob"}, {[]any{"spec", "policyTypes"}, []any{"Egress"}}},
+	"ConfigMap":               {{[]any{"data", "ver"}, "oob"}, {[]any{"data", "k"}, "oob"}, {[]any{"metadata", "labels", "app"}, "oob"}},
+	"Secret":                  {{[]any{"stringData", "ver"}, "oob"}, {[]any{"type"}, "oob/type"}, {[]any{"metadata", "labels", "app"}, "oob"}},
+	"Service":                 {{[]any{"spec", "ports", 0, "targetPort"}, float64(9999)}, {[]any{"spec", "selector", "app"}, "oob"}, {[]any{"spec", "ports", 1, "name"}, "oob"}},
+	"ServiceAccount":          {{[]any{"automountServiceAccountToken"}, true}, {[]any{"metadata", "labels", "app"}, "oob"}},
+	"Deployment":              {{[]any{"spec", "replicas"}, float64(7)}, {[]any{"spec", "template", "spec", "containers", 0, "image"}, "oob:1"}, {[]any{"spec", "template", "spec", "containers", 0, "env", 0, "value"}, "oob"}, {[]any{"spec", "template", "metadata", "labels", "app"}, "oob"}},
+	"StatefulSet":             {{[]any{"spec", "replicas"}, float64(5)}, {[]any{"spec", "template", "spec", "containers", 0, "image"}, "oob:1"}, {[]any{"spec", "serviceName"}, "oob"}},
+	"Job":                     {{[]any{"spec", "backoffLimit"}, float64(9)}, {[]any{"spec", "template", "spec", "containers", 0, "image"}, "oob:1"}},
+	"PersistentVolumeClaim":   {{[]any{"spec", "resources", "requests", "storage"}, "9Gi"}, {[]any{"spec", "accessModes"}, []any{"ReadOnlyMany", "ReadWriteOnce"}}},
+	"Role":                    {{[]any{"rules", 0, "verbs"}, []any{"get"}}, {[]any{"rules", 0, "resources"}, []any{"configmaps", "secrets"}}},
+	"ClusterRole":             {{[]any{"rules", 0, "verbs"}, []any{"get", "list", "delete"}}, {[]any{"metadata", "labels", "app"}, "oob"}},
+	"NetworkPolicy":           {{[]any{"spec", "podSelector", "matchLabels", "app"}, "oob"}, {[]any{"spec", "policyTypes"}, []any{"Egress"}}},
+	"HorizontalPodAutoscaler": {{[]any{"spec", "maxReplicas"}, float64(17)}, {[]any{"spec", "scaleTargetRef", "name"}, "oob"}, {[]any{"metadata", "labels", "app"}, "oob"}},
 }
 
 var fieldRemovals = map[string][][]any{
-	"ConfigMap":             {{"data", "k"}, {"metadata", "labels", "app"}},
-	"Secret":                {{"stringData", "k"}, {"metadata", "labels"}},
-	"Service":               {{"spec", "selector"}, {"spec", "ports", 0, "targetPort"}},
-	"ServiceAccount":        {{"automountServiceAccountToken"}},
-	"Deployment":            {{"spec", "replicas"}, {"spec", "template", "spec", "containers", 0, "env"}},
-	"StatefulSet":           {{"spec", "serviceName"}},
-	"Job":                   {{"spec", "backoffLimit"}},
-	"PersistentVolumeClaim": {{"spec", "accessModes"}},
-	"Role":                  {{"rules"}},
-	"ClusterRole":           {{"metadata", "labels", "app"}},
-	"NetworkPolicy":         {{"spec", "policyTypes"}},
+	"ConfigMap":               {{"data", "k"}, {"metadata", "labels", "app"}},
+	"Secret":                  {{"stringData", "k"}, {"metadata", "labels"}},
+	"Service":                 {{"spec", "selector"}, {"spec", "ports", 0, "targetPort"}},
+	"ServiceAccount":          {{"automountServiceAccountToken"}},
+	"Deployment":              {{"spec", "replicas"}, {"spec", "template", "spec", "containers", 0, "env"}},
+	"StatefulSet":             {{"spec", "serviceName"}},
+	"Job":                     {{"spec", "backoffLimit"}},
+	"PersistentVolumeClaim":   {{"spec", "accessModes"}},
+	"Role":                    {{"rules"}},
+	"ClusterRole":             {{"metadata", "labels", "app"}},
+	"NetworkPolicy":           {{"spec", "policyTypes"}},
+	"HorizontalPodAutoscaler": {{"spec", "minReplicas"}, {"metadata", "labels", "app"}},
 }
 
 func walk(o any, path []any) (parent any, last any, ok bool) {
